@@ -19,8 +19,7 @@ Definition normalize (s : splice_info) : splice_info :=
   with_crc (normalize0 s) (crc_reg (ser_section_nocrc (normalize0 s))).
 
 Definition reencodable (s : splice_info) : Prop :=
-  supported s /\ si_protocol s < 256 /\ si_cw s < 256 /\ all_timed (si_cmd s) /\
-  (si_cmd s = Null -> si_pts_adj s = 0) /\ section_length (normalize0 s) < 1024.
+  supported s /\ si_protocol s < 256 /\ si_cw s < 256 /\ section_length (normalize0 s) < 1024.
 
 Lemma foreigns_foreign ds : Forall is_foreign (foreigns ds).
 Proof. unfold foreigns. apply Forall_forall. intros d H. apply filter_In in H. destruct H as [_ H]. destruct d; [discriminate|exact I]. Qed.
@@ -39,7 +38,7 @@ Qed.
 Theorem reencode_normalizes s : reencodable s ->
   new_scte35 (ser_splice_info s) = Ok (expected s) /\ fst (update_data (expected s)) = ser_section (normalize s).
 Proof.
-  intros (Hsup & Hpv & Hcw & Htimed & Hnull & Hsl).
+  intros (Hsup & Hpv & Hcw & Hsl).
   split; [apply decode_ser; exact Hsup|].
   pose proof Hsup as ((Hsap' & Hea & Hadj & Htier & Hcmd & Hcl & Hds & Hdl & Hsl') & Htid & Henc & Hptr & Hsc).
   destruct (logical_expected_any (si_descs s) Hds) as [LD LO].
@@ -48,7 +47,7 @@ Proof.
   assert (Hsub : subtract_pts (expected_pts s) (cmd_pts (expected_cmd (si_cmd s))) = si_pts_adj s).
   { rewrite cmd_pts_expected. unfold expected_pts. pose proof (cmd_time_lt _ Hcmd Hsc) as Ht.
     destruct (si_cmd s) as [|t|eid b|ty body] eqn:Ec.
-    - rewrite Hnull by reflexivity. reflexivity.
+    - unfold subtract_pts. cbn [st_val cmd_time]. replace (0 <=? si_pts_adj s) with true by (symmetry; apply N.leb_le; lia). lia.
     - apply subtract_add; assumption.
     - apply subtract_add; assumption.
     - destruct Hsc. }
